@@ -369,6 +369,22 @@ func (c11) Execute(h *core.History) *core.Outcome {
 		if !object.Equals(gm, twin) || object.Cmp(gm, twin) != 0 || !object.Equals(twin, gm) {
 			fail(i, "api-equality", fmt.Sprintf("map %s is not equal to its canonically built twin %s", gm.Inspect(), twin.Inspect()))
 		}
+		// ... and differs from a near twin holding another value under one key. (Whether two maps whose keys are
+		// int/float twins - 1 and 1.0 - are equal is a law of the comparison, C12, and is not judged here.)
+		if n := len(mod.pairs); n > 0 {
+			at := i % n
+			near := object.NewMapSize(n)
+			for j, p := range mod.pairs {
+				if j == at {
+					near = near.Set(keyObj(keyPool[p.k]), object.Integer{Value: p.v + 1})
+				} else {
+					near = near.Set(keyObj(keyPool[p.k]), object.Integer{Value: p.v})
+				}
+			}
+			if object.Equals(gm, near) || object.Equals(near, gm) {
+				fail(i, "api-inequality", fmt.Sprintf("map %s equals %s, which holds another value", gm.Inspect(), near.Inspect()))
+			}
+		}
 		// --- grol source
 		if got, _ := sess.Observe("m"); got != mod.canon() {
 			fail(i, "src-iteration", fmt.Sprintf("session m walks as %s, model %s", got, mod.canon()))
@@ -483,7 +499,7 @@ func (c11) Execute(h *core.History) *core.Outcome {
 				r += n
 			}
 			l, r = max(l, 0), max(r, 0) // before the start = the start
-			inverted := l > r          // judged before the bounds are clamped to the length (m[10:9] is an error even on {})
+			inverted := l > r           // judged before the bounds are clamped to the length (m[10:9] is an error even on {})
 			l, r = min(l, n), min(r, n)
 			res := sess.Input(stmt(fmt.Sprintf("m = m[%d:%d]", e.N, e.M)), nil)
 			if inverted {
